@@ -300,10 +300,75 @@ type c16Ctx struct {
 	*fw.Result
 	sigs, keys, members map[string]bool
 	dedupeSigs          bool
+	// r draws the pre-annotation mixes and the degradations; seeded from the case
+	r       *gen.R
+	degrade bool
 }
 
-func c16NewCtx(dedupeSigs bool) *c16Ctx {
-	return &c16Ctx{Result: fw.NewResult(), sigs: map[string]bool{}, keys: map[string]bool{}, members: map[string]bool{}, dedupeSigs: dedupeSigs}
+func c16NewCtx(c fw.Case) *c16Ctx {
+	gen16 := c.Kind == "rand" || c.Kind == "grid"
+	return &c16Ctx{Result: fw.NewResult(), sigs: map[string]bool{}, keys: map[string]bool{}, members: map[string]bool{},
+		dedupeSigs: !gen16, r: gen.New(c.Seed^0x16c16, "c16pre/"+c.Kind), degrade: gen16}
+}
+
+// c16RunDegraded takes the instance out of the property's domain and only runs it: one or two
+// member ways lose the location of some of their nodes (LineStringAt / wayToLineString then
+// return fewer points than the way has nodes), and / or a member way without any node is added.
+func c16RunDegraded(res *c16Ctx, in *polyg.Instance, shape string, detail func(map[string]any) map[string]any) {
+	d := polyg.Degrade{Unlocated: map[int][]int{}}
+	kind := res.r.Intn(3)
+	if kind != 1 {
+		for n := res.r.Range(1, 2); n > 0; n-- {
+			pi := res.r.Intn(len(in.Pieces))
+			nv := len(in.Pieces[pi].V)
+			cnt := res.r.Range(1, nv) // up to every node of the way
+			d.Unlocated[pi] = res.r.Perm(nv)[:cnt]
+		}
+	}
+	if kind != 0 {
+		d.EmptyWay, d.EmptyRole, d.EmptyID = true, res.r.PickS("outer", "inner", "outer"), in.FreeWayID()
+		d.EmptyAt = res.r.Intn(len(in.Pieces) + 1)
+	}
+	run := func(stage string, f func()) {
+		defer func() {
+			if x := recover(); x != nil {
+				res.Violate("C16/panic-degraded-"+stage+"/"+shape, fmt.Sprintf("%s panicked on a multipolygon with unlocated way nodes / an empty member way: %v", stage, x),
+					detail(map[string]any{"degrade": d, "panic": fmt.Sprintf("%v\n%s", x, debug.Stack())}))
+			}
+		}()
+		f()
+	}
+	annotOK := false
+	var rel *osm.Relation
+	run("annotate", func() {
+		var ds *osm.HistoryDatasource
+		rel, ds = in.DegradedHistory(d)
+		annotOK = annotate.Relations(context.Background(), osm.Relations{rel}, ds) == nil
+	})
+	run("convert-N", func() { osmgeojson.Convert(in.DegradedOSM(false, d)) })
+	run("convert-W", func() { osmgeojson.Convert(in.DegradedOSM(true, d)) })
+	res.Result.Eval("") // executed, nothing judged
+	res.Add("degraded_inputs_run_not_asserted", 1)
+	if len(d.Unlocated) == 0 && annotOK {
+		// observed only: with nothing but an extra empty member way, do the real members still
+		// get the truth's directions?
+		ok := true
+		got := map[int64]orb.Orientation{}
+		for _, m := range rel.Members {
+			if m.Type == osm.TypeWay { // a node member may share its number with a way
+				got[m.Ref] = m.Orientation
+			}
+		}
+		for i := range in.Pieces {
+			if got[int64(in.Pieces[i].ID)] != in.Pieces[i].Dir {
+				ok = false
+			}
+		}
+		res.Add("observed_empty_member_way_inputs", 1)
+		if ok {
+			res.Add("observed_empty_member_way_inputs_directions_right", 1)
+		}
+	}
 }
 
 func (c *c16Ctx) Eval(sig string) {
@@ -354,9 +419,20 @@ func c16Check(res *c16Ctx, in *polyg.Instance, family string) {
 		return d
 	}
 
-	// (1) orientation annotation by the library against the truth's directions
-	func() {
+	// (1) orientation annotation by the library against the truth's directions: on members
+	// without annotations (A), and on members that already carry annotations — the true
+	// directions (re-annotation), the opposite ones (stale), and a mix of right / wrong / none.
+	// Whatever the members carried before, afterwards they must carry the truth's directions.
+	annot := func(mode string, pre []orb.Orientation) {
 		rel, ds := in.History()
+		if pre != nil {
+			rel, ds = in.HistoryPre(pre)
+		}
+		keyMode, what := "", ""
+		if mode != "A" {
+			keyMode = "pre-" + mode + "-"
+			what = " (members pre-annotated: " + mode + ")"
+		}
 		var err error
 		pan := ""
 		func() {
@@ -367,13 +443,22 @@ func c16Check(res *c16Ctx, in *polyg.Instance, family string) {
 			}()
 			err = annotate.Relations(context.Background(), osm.Relations{rel}, ds)
 		}()
-		res.Eval(shape + "/A")
+		res.Eval(shape + "/" + mode)
+		extra := map[string]any{}
+		if pre != nil {
+			pm := map[string]int{}
+			for i := range in.Pieces {
+				pm[fmt.Sprint(in.Pieces[i].ID)] = int(pre[i])
+			}
+			extra["pre_annotated_orientation_by_way"] = pm
+		}
 		if pan != "" {
-			res.Violate("C16/annotate-panic/"+shape, "annotate.Relations panicked on a valid multipolygon", detail(map[string]any{"panic": pan}))
+			extra["panic"] = pan
+			res.Violate("C16/"+keyMode+"annotate-panic/"+shape, "annotate.Relations panicked on a valid multipolygon"+what, detail(extra))
 			return
 		}
 		if err != nil {
-			res.Violate("C16/annotate-error/"+shape, "annotate.Relations failed on a valid multipolygon: "+err.Error(), detail(nil))
+			res.Violate("C16/"+keyMode+"annotate-error/"+shape, "annotate.Relations failed on a valid multipolygon"+what+": "+err.Error(), detail(extra))
 			return
 		}
 		got := map[int64]orb.Orientation{}
@@ -398,14 +483,50 @@ func c16Check(res *c16Ctx, in *polyg.Instance, family string) {
 				if class == "" {
 					class = c
 				}
-				wrong = append(wrong, fmt.Sprintf("way %d (%s, truth ring %d/%d): Orientation=%d, runs %d in the truth", pc.ID, pc.Role, pc.Poly, pc.Ring, g, pc.Dir))
+				p := ""
+				if pre != nil {
+					p = fmt.Sprintf(", carried %d before", pre[i])
+				}
+				wrong = append(wrong, fmt.Sprintf("way %d (%s, truth ring %d/%d): Orientation=%d, runs %d in the truth%s", pc.ID, pc.Role, pc.Poly, pc.Ring, g, pc.Dir, p))
 			}
 		}
 		if len(wrong) > 0 {
-			res.Violate("C16/orientation-"+class+"/"+shape, fmt.Sprintf("%d of %d way members annotated with the wrong direction; first: %s", len(wrong), len(in.Pieces), wrong[0]),
-				detail(map[string]any{"wrong_members": wrong}))
+			extra["wrong_members"] = wrong
+			res.Violate("C16/"+keyMode+"orientation-"+class+"/"+shape, fmt.Sprintf("%d of %d way members annotated with the wrong direction%s; first: %s", len(wrong), len(in.Pieces), what, wrong[0]),
+				detail(extra))
 		}
-	}()
+	}
+	annot("A", nil)
+	{
+		np := len(in.Pieces)
+		same, opp, mix := make([]orb.Orientation, np), make([]orb.Orientation, np), make([]orb.Orientation, np)
+		mixMode := res.r.Intn(3)
+		for i := range in.Pieces {
+			d := in.Pieces[i].Dir
+			same[i], opp[i] = d, -d
+			switch mixMode {
+			case 0: // anything on every member
+				mix[i] = orb.Orientation(res.r.Intn(3) - 1)
+			case 1: // right on some members, nothing on the others
+				if res.r.Bool() {
+					mix[i] = d
+				}
+			default: // wrong on some members, nothing on the others
+				if res.r.Bool() {
+					mix[i] = -d
+				}
+			}
+		}
+		annot("A=", same)
+		annot("A-", opp)
+		annot("A~", mix)
+	}
+
+	// (1b) outside the property (rings not fully located / a member that is no piece of a
+	// ring): run, must not panic, nothing else asserted
+	if res.degrade && res.r.Chance(0.25) {
+		c16RunDegraded(res, in, shape, detail)
+	}
 
 	// (2) the four input variants against the truth
 	canon := make([]string, len(c16Variants))
@@ -705,7 +826,7 @@ func c16EnumGrid(res *c16Ctx, split bool, perms int) int {
 }
 
 func c16Exec(c fw.Case) *fw.Result {
-	res := c16NewCtx(c.Kind != "rand" && c.Kind != "grid")
+	res := c16NewCtx(c)
 	switch c.Kind {
 	case "rand":
 		n := int(c.Int("n"))
@@ -796,7 +917,7 @@ func init() {
 		ID:    "C16",
 		Level: "exploration",
 		Rule: "generated ground truths (1-4 star-shaped outers in distinct grid cells, 0-3 holes each, validated by the generator's own exact point-in-polygon / segment-intersection tests), every ring cut at 1..n vertices, pieces reversed at random, members / ways / nodes shuffled; " +
-			"each truth is converted in four input variants (N node objects, W located way nodes, NO/WO the same with truth-derived member orientations) and annotated once (A); plus seed-independent exhaustive families (single n-gon: every cut set x reversal mask x member order; outer+hole; two outers). " +
+			"each truth is converted in four input variants (N node objects, W located way nodes, NO/WO the same with truth-derived member orientations) and annotated four times: members without annotations (A), pre-annotated with the true directions (A=), with the opposite ones (A-), with a mix of right / wrong / none (A~); plus seed-independent exhaustive families (single n-gon: every cut set x reversal mask x member order; outer+hole; two outers). " +
 			"A signature is (family, #outers, holes per outer, cut classes present, reversal class, +node member, variant); distinct_nontrivial counts distinct signatures.",
 		Assumptions: []string{
 			"'the result is the same' is read up to ring start vertex, order of holes within a polygon and order of polygons; winding, closure and the cyclic vertex sequence are compared exactly (float64 bit patterns)",
@@ -805,6 +926,8 @@ func init() {
 			"feature id / tags are not asserted (a single closed outer way with an untagged relation is reported under the way's id by design)",
 			"members with empty or other roles are ignored by the library and are outside the property: not generated for ways; 20% of the generated relations carry one node member (label/admin_centre), reported with '+node' in the key",
 			"orientation-carrying variants use directions derived from the truth (independent producer); the library's own annotation is checked separately against the same directions",
+			"annotating marks every way member with its true direction whatever Orientation values the members carried before (re-annotation, stale or partial annotations): asserted for annotate.Relations only; Convert is given correct annotations or none, because it documents that it trusts them",
+			"member ways with unlocated nodes (fewer points than nodes) and member ways without nodes leave the property's domain (it requires located rings cut into pieces): 25% of the generated inputs are additionally run in such a degraded form through annotate.Relations and Convert; only panics are reported, results are counted, not judged",
 		},
 		Cases: func(tier string, seed uint64) []fw.Case {
 			nCases, per := 60, 25
